@@ -9,6 +9,11 @@ def chk(pid, cat, text, note, tech, design):
     C[pid] = {"property_id": pid, "quick_cmd": f"./check {pid} quick", "thorough_cmd": f"./check {pid} thorough",
               "evidence_file": f"evidence/{pid}.json", "replay_cmd_template": f"./check replay {pid} {{path}}", "engine": "vcheck",
               "level_claimed": {"category": cat, "text": text, "design_ref": design}, "level_note": note, "technique": tech}
+PLANT_NOTE = "Trusted: each planted kind is a definite violation by the property's own enumeration (literal operands); the unplanted base is confirmed accepted first."
+PLANT_TECH = "runtime monitor: fault planting into generated accepted programs; oracle on the compile result (Err, >=1 error, 0 bytes of Lua)"
+chk("C03", "exploration", "One definite type mismatch (41 kinds from the statement's enumeration) is planted at a random site and in a random embedding form into an accepted generated program; every variant must be rejected with an error and no Lua. Tens of thousands of plants per run over a kind x position-class x form matrix.", PLANT_NOTE, PLANT_TECH, "DESIGN.md §3 C03")
+chk("C04", "exploration", "Assignments to constants/parameters/case bindings, impure constructs inside pu functions at nesting depth 0-3 (through if/else/loop/block/case arm/fn and pu closures) and impure functions in pu-typed slots are planted into accepted generated programs; every variant must be rejected.", PLANT_NOTE, PLANT_TECH, "DESIGN.md §3 C04")
+chk("C05", "exploration", "Blob/enum/tuple/externblob shape violations, break/continue outside a loop of the same function (site-dependent) and malformed entry points are planted into accepted generated programs; every variant must be rejected; accepted bases are additionally load-checked under luamon.", PLANT_NOTE, PLANT_TECH, "DESIGN.md §3 C05")
 chk("C08", "exploration",
     "Each generated typed program is compiled in 8 renderings that differ only in which correct annotations are written; acceptance and emitted bytes are compared. Thousands of programs per run; violations are replayable from (seed, case).",
     "Trusted: the generator's typing (which annotations are correct); a program rejected in all variants is discarded. Open finding KF-C08-unannotated-callee is quarantined to hazard cases.",
